@@ -18,7 +18,9 @@
 //!      damaged frame is delivered, everything before it is, and the library drops the connection in
 //!      the very `read_event` that completes the damaged act / length header / body (no earlier)
 //!  T3  no channel / routing / custom handler callback for a peer fires before that peer's Init was
-//!      processed (`peer_connected`), in particular when the first authenticated frame is not Init
+//!      processed (`peer_connected`), in particular when the first authenticated frame is not Init;
+//!      and while the peer withholds its Init the library transmits nothing but its own Init, even
+//!      if its handlers already hand it messages for that peer
 //!  T4  arbitrary bytes instead of act one / two / three / after the handshake, and authenticated
 //!      frames with arbitrary or hostile well-formed content, never panic; garbage acts are dropped
 //!      once complete and never answered by handler callbacks
@@ -2374,9 +2376,7 @@ struct Applied {
 	decision: Option<u64>,
 }
 struct Unit {
-	frame: bool,
 	bytes: Vec<u8>,
-	start: u64,
 }
 
 fn init_payload(features: &[u8], networks: Option<&[[u8; 32]]>, extra_tlv: Option<(u8, &[u8])>) -> Vec<u8> {
@@ -2601,7 +2601,6 @@ impl<'w> RefSession<'w> {
 	}
 	fn emit(&mut self, frame: bool, bytes: Vec<u8>) {
 		let idx = self.units.len();
-		let start = self.s_len;
 		let mstart = self.m_total;
 		self.s_len += bytes.len() as u64;
 		let len = bytes.len();
@@ -2698,7 +2697,7 @@ impl<'w> RefSession<'w> {
 				}
 			},
 		}
-		self.units.push(Unit { frame, bytes, start });
+		self.units.push(Unit { bytes });
 	}
 	fn on_events(&mut self, evs: Vec<REvent>) {
 		for ev in evs {
@@ -2730,7 +2729,9 @@ impl<'w> RefSession<'w> {
 						}
 					}
 					if ty != 16 && self.init_unit.is_none() {
+						// judged by the withheld-Init rule (T3), not by the ledgers
 						self.early_non_init += 1;
+						continue;
 					}
 					match ty {
 						18 => {
